@@ -131,3 +131,34 @@ def _is_high_surrogate(code_point: int) -> bool:
 
 def _is_low_surrogate(code_point: int) -> bool:
     return code_point >= 0xDC00 and code_point <= 0xDFFF
+
+
+_ESCAPES = {
+    "\\": "\\\\",
+    "\x08": "\\b",
+    "\x0c": "\\f",
+    "\n": "\\n",
+    "\r": "\\r",
+    "\t": "\\t",
+}
+
+
+def quote_string(value: str, *, quote: str = "'", delimit: bool = True) -> str:
+    """Return _value_ as a Liquid string literal, the inverse of `unescape`.
+
+    If _delimit_ is `False`, the escaped text is returned without surrounding quotes.
+    """
+    buf: list[str] = []
+    for i, ch in enumerate(value):
+        if ch in _ESCAPES:
+            buf.append(_ESCAPES[ch])
+        elif ch == quote:
+            buf.append("\\" + quote)
+        elif ch == "$" and value[i + 1 : i + 2] == "{":
+            buf.append("\\$")
+        elif ord(ch) < 0x20 or ord(ch) == 0x7F:  # noqa: PLR2004
+            buf.append(f"\\u{ord(ch):04x}")
+        else:
+            buf.append(ch)
+    text = "".join(buf)
+    return f"{quote}{text}{quote}" if delimit else text
